@@ -2,6 +2,7 @@ import Httoop.Proto
 import Httoop.Model.Utf8
 import Httoop.Model.Percent
 import Httoop.Model.Form
+import Httoop.Ops.Uri
 /-
   Line protocol driver: one operation per input line, one canonical line out.
   `op arg …` — octet-string arguments are lower-case hex (`-` = empty), numbers decimal.
@@ -21,7 +22,7 @@ def opsPercent (op : String) (args : List String) : Option String :=
   | _, _ => none
 
 def runOp (op : String) (args : List String) : String :=
-  match opsPercent op args with
+  match opsPercent op args <|> Ops.opsUri op args with
   | some r => r
   | none => "bad-op"
 
